@@ -209,6 +209,13 @@ def body_ellipsoid(case):
     a, f, om = ell._a, ell._f, ell._omega
     b = a * (1.0 - f)
     arg = _arg(lat, form)
+    if form == "angle" and int(abs(lat) * 1e6) % 2:
+        # the caller keeps one Angle for the latitude and moves it (documented set()): the object
+        # first served another latitude in the same functions of the same Earth object
+        other = -lat * 0.5 + 11.0 if abs(lat) > 1.0 else 47.0
+        arg = Angle(other)
+        e.rho_cosphi(arg, 0.0), e.rho_sinphi(arg, 0.0), e.rp(arg), e.rm(arg), e.linear_velocity(arg)
+        arg.set(lat)
     phi = math.radians(lat)
     what = "%s lat=%r(%s)" % (name if name != "user" else "Ellipsoid%r" % (tuple(case["ell"]),),
                               lat, form)
